@@ -418,6 +418,14 @@ func (w *world) fuzz(c *common.Ctx, n int) {
 			})
 		case 6:
 			cj, kj := mutate(c, cfgJSON), mutate(c, keysJSON)
+			// well-formed but incomplete signing-key documents (half-edited files, misspelled members)
+			oddKeys := []string{`{"keys":[{"name":"a"}]}`, `{"keys":[{"name":"a","id":"i"}]}`, `{"keys":[{"name":"a","pluginName":"p"}]}`,
+				`{"keys":[{"name":"a","keyPath":"k"}]}`, `{"keys":[{"name":"a","certPath":"c"}]}`, `{"default":"a","keys":[{"name":"a"}]}`,
+				`{"keys":[{}]}`, `{"keys":[null]}`, `{"keys":null}`, `{"default":null}`, `{"keys":[{"name":"a","keyPath":null,"certPath":null,"id":null,"pluginName":null,"pluginConfig":null}]}`,
+				`{"keys":[{"name":"a","keyPath":"k","certPath":"c","id":"i","pluginName":"p"}]}`, `{"keys":[{"name":"a"},{"name":"a"}]}`, `{"keys":[{"name":""}]}`}
+			if k%3 == 0 {
+				kj = []byte(oddKeys[(k/3)%len(oddKeys)])
+			}
 			curData = append(append([]byte{}, cj...), kj...)
 			emit("parser", "config-files", func() bool {
 				os.WriteFile(filepath.Join(cfgDir, dir.PathConfigFile), cj, 0o644)
@@ -500,6 +508,7 @@ func Run(c *common.Ctx) error {
 	}
 	w.sweepVerifier(c, sweepN)
 	w.sweepConstructors(c)
+	w.sweepPluginOutput(c)
 	w.sweepRegistry(c)
 	for _, p := range w.panics {
 		c.Note("panic: %s", p)
